@@ -558,9 +558,13 @@ def do_check(pid, cfg, tier, seed):
                 kept.append(d)
                 continue
             again = []
-            for _ in range(2):
+            for attempt in range(4):
+                # a genuine defect differs every time; a disturbed machine does not: stop at the first run that agrees
+                time.sleep(0.5 * attempt)
                 r, err = eval_ops([s_ for s_ in setup if needs_setup(s_, op)] + [op])
                 again.append(bool(r) and not err and r[-1][3] not in (None, "-") and r[-1][1] != r[-1][3])
+                if not again[-1]:
+                    break
             if all(again):
                 kept.append(d)
             else:
